@@ -4,7 +4,7 @@
    Grid: the integers xmin .. xmax = xmin + n - 1 (x_range; column i <-> x = xmin + i).
    INPUTS taken from the implementation run (exact rationals of its floats; SciPy / loss_functions are oracles):
      pr t   = probability vector of period t over d_range = dmin, dmin+1, ...      (finite_horizon.py:416-420)
-     L t    = one-period cost  holding_cost[t]*n_bar(y) + stockout_cost[t]*n(y)  for y on the grid (:431-434)
+     L t    = one-period cost  holding_cost[t]*n_bar(y) + stockout_cost[t]*n(y)  for y on the grid (:430-439; n, n_bar from normal_loss / discrete_loss / continuous_loss by demand type)
      c t, K t, g t = purchase cost, fixed cost, discount factor of period t;   term x = terminal cost (:408-410)
    Mirrored as it is: d_eff clamp (:440), H_t(y) (:425-456), loop y = x..xmax with strict < (first minimum, :474-489),
    boundary test "best y = xmax and x < xmax" => abort and restart with xmax*2 (:493-503), (s,S) extraction incl. the
